@@ -45,6 +45,9 @@ type c02Plan struct {
 	// Refeed: after the round has finished, one operator feeds the round's first operation file to the still running
 	// machine once more (a QR code scanned twice); whatever the machine answers, it keeps its share
 	Refeed bool `json:"refeed,omitempty"`
+	// RestartAfter: once the round is finished every airgapped machine is stopped and started again (same folder, same
+	// password) before its share is read; before it is asked to sign, the round's operation log is replayed as documented
+	RestartAfter bool `json:"restart_after,omitempty"`
 }
 
 type c02Fault struct {
@@ -94,6 +97,7 @@ func c02Gen(rt *rapid.T) c02Plan {
 	}
 	p.Prior = p.N >= 3 && p.T <= p.N-1 && rapid.IntRange(0, 2).Draw(rt, "prior") == 0
 	p.Refeed = rapid.IntRange(0, 2).Draw(rt, "refeed") == 0
+	p.RestartAfter = rapid.IntRange(0, 2).Draw(rt, "restartAfter") == 0
 	return p
 }
 
@@ -156,6 +160,7 @@ type c02Obs struct {
 	DevLast      bool // the deviant announcement was the last key announcement on the board
 	PriorChecked bool
 	Refed        bool
+	Restarted    bool
 	FaultKey     string
 	FaultSeen    string // what the operator saw from the machine during the fault
 	Err          error
@@ -368,6 +373,15 @@ func c02Execute(p c02Plan, root string) (obs c02Obs) {
 			obs.Refed = true
 		}
 	}
+	if p.RestartAfter {
+		for i, m := range w.Machines {
+			if err := m.Reopen(); err != nil {
+				obs.Viol = violf("restart-after-round-fails", "machine %d cannot be started again after the round finished: %v", i, err)
+				return
+			}
+		}
+		obs.Restarted = true
+	}
 	// ---- the round is signing-ready somewhere: (a)-(e) must hold --------------------------------------
 	vsuite := bls12381.NewBLS12381Suite(nil)
 	suite := vsuite.(pairing.Suite)
@@ -469,6 +483,14 @@ func c02Execute(p c02Plan, root string) (obs c02Obs) {
 		}
 		obs.PriorChecked = true
 	}
+	if p.RestartAfter {
+		for i, m := range w.Machines {
+			if err := m.M.ReplayOperationsLog(round); err != nil {
+				obs.Viol = violf("restart-after-round-fails", "machine %d, restarted after the round finished: the replay of the round's operation log fails: %v", i, err)
+				return
+			}
+		}
+	}
 	// (e) any t shares sign consistently, t-1 cannot
 	msg := []byte(fmt.Sprintf("consistency probe %d/%d", p.N, p.T))
 	tasks, _ := json.Marshal([]requests.SigningTask{{MessageID: "probe", Payload: msg}})
@@ -558,6 +580,9 @@ func c02Run(t *testing.T, st *vstat.Stats, p c02Plan) *viol {
 		st.Class("honest:ready")
 		if obs.PriorChecked {
 			st.Class("honest:ready-with-an-earlier-round-on-the-same-machines")
+		}
+		if obs.Restarted {
+			st.Class("machines-restarted-before-shares-were-read")
 		}
 		if obs.Refed {
 			st.Class("honest:ready-and-first-operation-fed-again")
